@@ -33,8 +33,8 @@ COMPONENTS = {"real": ["EoN.simulation._ListDict_", "EoN.Gillespie_SIR", "EoN.Gi
 
 def plan(tier):
     if tier == "quick":
-        return [("machine", 320), ("sir_walk", 300), ("sis_walk", 100), ("simple_walk", 250), ("complex_walk", 250)]
-    return [("machine", 8000), ("sir_walk", 15000), ("sis_walk", 6000), ("simple_walk", 12000), ("complex_walk", 12000)]
+        return [("machine", 320), ("sample", 160), ("sir_walk", 300), ("sis_walk", 100), ("simple_walk", 250), ("complex_walk", 250)]
+    return [("machine", 8000), ("sample", 3000), ("sir_walk", 15000), ("sis_walk", 6000), ("simple_walk", 12000), ("complex_walk", 12000)]
 
 
 def _heavy_prefer(ad):
@@ -76,6 +76,16 @@ def run_one(family, rng, idx, tier):
         if idx < 2:
             out["sample"] = {"ops": ops}
         return out
+    if family == "sample":
+        try:
+            res, ops, ncells = lm.sample_check(rng, stats)
+        except Skip as e:
+            return {"skipped": "skip: %s" % str(e)[:60], "stats": {"evaluations": 0}}
+        if res is None:
+            return {"skipped": "sample: fewer than two positive weights", "stats": {"evaluations": 0}}
+        cells, n, weights = res
+        return {"partial": {"cells": [[k, o, p] for k, o, p in cells], "n": n, "ops": ops, "weights": weights},
+                "stats": {"evaluations": n, "sample_draws": n}}
     if family in ("sir_walk", "sis_walk"):
         sim = "Gillespie_SIR" if family == "sir_walk" else "Gillespie_SIS"
         case = markov.gen_walk_case(rng, sim, heavy_churn=True)
@@ -121,6 +131,17 @@ def shrink(v):
 
 
 def replay(case):
+    if "sample_ops" in case:
+        # re-run the seeded history and the sample
+        import random
+        from eonsim import framework, lawtest
+        rng = framework.derive_rng(case["seed"], PROPERTY, "sample", case["idx"])
+        res, ops, ncells = lm.sample_check(rng, {})
+        if res is None:
+            return []
+        cells, n, weights = res
+        fails, _, _ = lawtest.decide([((0,), n, cells)])
+        return [walks.V("sample_law", "_ListDict_/sampled-selection-law", "replay %r" % (fails[0],), case)] if fails else []
     if "ops" in case:
         r, k = lm.run_ops([list(o) for o in case["ops"]])
         return [walks.V(r[0], "_ListDict_/%s" % r[0], r[1], case)] if r is not None else []
@@ -130,3 +151,24 @@ def replay(case):
     if fam == "simple_walk":
         return markov.replay_walk(case, adapter_cls=contagion.SimpleAdapter, rows=False)
     return markov.replay_walk(case, adapter_cls=contagion.ComplexAdapter, rows=False)
+
+
+def finalize(parts, tier, seed):
+    from eonsim import lawtest
+    tests = []
+    for (fam, idx), p in parts:
+        tests.append(((idx,), p["n"], [tuple(c) for c in p["cells"]]))
+    fails, ncells, worst = lawtest.decide(tests)
+    byidx = {idx: p for (fam, idx), p in parts}
+    viol = []
+    for (label, k, o, n, pr, pv) in fails[:3]:
+        p = byidx[label[0]]
+        viol.append({"cls": "sample_law", "key": "_ListDict_/sampled-selection-law",
+                     "msg": "history %d: candidate %s chosen %d times in %d seeded draws, weight/sum = %.6g (weights %r), p=%.3g"
+                            % (label[0], k, o, n, pr, p["weights"], pv),
+                     "case": {"sample_ops": p["ops"], "n": n, "seed": seed, "idx": label[0]}, "family": "sample", "idx": label[0]})
+    stats = {"sample_cells_tested": ncells}
+    if worst:
+        stats["sample_worst_z"] = round(worst[0], 3)
+    keys = ["s|%d|%s" % (idx, c[0]) for (fam, idx), p in parts for c in p["cells"]]
+    return {"viol": viol, "stats": stats, "keys": keys}
